@@ -1,6 +1,101 @@
+"""Engine X: bounded stand-ins that execute the real code (in-crate tests under --cfg asefile_verif).
+Never counted as proved; every obligation carries its bound."""
+import os, re, json, shutil
+import common
+from common import log, Undecided, VERIF, CACHE, NCPU
+
+
+def _env(scratch, ctx):
+    xout = os.path.join(VERIF, "replays", "inputs")
+    os.makedirs(xout, exist_ok=True)
+    return {"RUSTFLAGS": "--cfg asefile_verif", "CARGO_TARGET_DIR": os.path.join(scratch.root, "target-native"),
+            # optimised but with overflow checks and debug assertions (the test profile keeps both on)
+            "CARGO_PROFILE_TEST_OPT_LEVEL": "2", "CARGO_PROFILE_DEV_OPT_LEVEL": "2",
+            "CARGO_PROFILE_TEST_DEBUG": "0", "CARGO_PROFILE_DEV_DEBUG": "0",
+            "VERIF_TIER": ctx["tier"], "VERIF_SEED": str(ctx["seed"]), "VERIF_XOUT": xout, "RUST_BACKTRACE": "0",
+            "RUST_MIN_STACK": str(8 * 1024 * 1024)}
+
+
+def seed_target(scratch):
+    src = os.path.join(CACHE, "native-target")
+    dst = os.path.join(scratch.root, "target-native")
+    if os.path.isdir(src) and not os.path.exists(dst):
+        common.run(["cp", "-a", src, dst])
+
+
 def run(ctx, obls):
-    raise NotImplementedError
+    scratch = ctx["scratch"]
+    seed_target(scratch)
+    names = ["verif_exec::%s::%s" % (o.extra["mod"], o.id) for o in obls]
+    tmo = sum(o.timeout for o in obls) + 600
+    cmd = ["cargo", "test", "--offline", "--lib", "--features", "utils", "--"] + names + \
+          ["--exact", "--nocapture", "--test-threads", str(NCPU)]
+    rc, out, secs = common.run(cmd, cwd=scratch.repo, env=_env(scratch, ctx), timeout=tmo)
+    if re.search(r"^error(\[E\d+\])?:", out, re.M) and "test result:" not in out:
+        lines = out.splitlines()
+        blocks = ["\n".join(lines[i:i + 12]) for i, l in enumerate(lines) if re.match(r"^error(\[E\d+\])?:", l)]
+        raise Undecided("engine X build failed:\n%s" % "\n---\n".join(blocks[:4]))
+    stats, fails = {}, {}
+    for m in re.finditer(r"^XSTAT (\{.*\})\s*$", out, re.M):
+        try:
+            j = json.loads(m.group(1))
+            stats[j["id"]] = j
+        except ValueError:
+            pass
+    for m in re.finditer(r"^XFAIL (\{.*\})\s*$", out, re.M):
+        try:
+            j = json.loads(m.group(1))
+            fails.setdefault(j["id"], []).append(j["what"])
+        except ValueError:
+            pass
+    res = {}
+    for o, name in zip(obls, names):
+        st = stats.get(o.id)
+        tm = re.search(r"^test %s \.\.\. (ok|FAILED)" % re.escape(name), out, re.M)
+        oc = {"backend": "cargo test (test profile, opt-level 2, overflow checks + debug assertions on)", "bound": o.bound}
+        if st:
+            oc.update({"evaluations": st["evaluations"], "distinct_nontrivial": st["distinct_nontrivial"],
+                       "samples": st.get("samples", []), "bound": st.get("bound") or o.bound})
+        if st and st["failures"] == 0 and (tm is None or tm.group(1) == "ok") and rc in (0,) or \
+                (st and st["failures"] == 0 and tm and tm.group(1) == "ok"):
+            if st["evaluations"] == 0:
+                oc.update({"status": "undecided", "reason": "vacuity guard: zero cases executed"})
+            else:
+                oc["status"] = "discharged"
+        elif o.id in fails or (st and st["failures"] > 0):
+            oc.update({"status": "failed", "reason": "; ".join(fails.get(o.id, [])[:3]) or "failing cases",
+                       "failed_check": (fails.get(o.id) or ["?"])[0], "input_found": True,
+                       "fingerprint": re.sub(r"\[input file: [^\]]*\]", "", (fails.get(o.id) or ["?"])[0])[:160],
+                       "all_failures": fails.get(o.id, [])})
+        else:
+            # the test binary died, timed out or panicked outside a recorded failure
+            pm = re.search(r"thread '%s' panicked at ([^\n]*)\n([^\n]*)" % re.escape(name), out)
+            if rc == -9:
+                oc.update({"status": "undecided", "reason": "engine X timeout"})
+            elif pm:
+                oc.update({"status": "failed", "reason": "panic in %s: %s %s" % (o.id, pm.group(1), pm.group(2)),
+                           "failed_check": pm.group(2)[:200], "input_found": True, "fingerprint": pm.group(2)[:120]})
+            else:
+                oc.update({"status": "undecided", "reason": "no XSTAT line for %s (test binary died?): %s" % (o.id, out[-800:])})
+        oc["seconds"] = round(secs / max(1, len(obls)), 1)
+        res[o.id] = oc
+    return res
 
 
 def witness_search(ctx, o):
+    """For a failed modular (stub-based) or Verus obligation: look for a concrete failing input by
+    running the paired bounded-exec obligation. Returns a short description or None."""
+    import registry
+    w = o.witness
+    if not w:
+        return None
+    xo = registry.OBL.get(w if w in registry.OBL else "")
+    if xo is None or xo.engine != "exec":
+        return None
+    try:
+        r = run(ctx, [xo])[xo.id]
+    except Undecided:
+        return None
+    if r.get("status") == "failed":
+        return {"via": xo.id, "what": r.get("all_failures") or r.get("reason")}
     return None
